@@ -152,11 +152,45 @@ func c02ResponsesAll(c *core.Ctx) {
 					}
 				}
 			}
+			// a pre-filter on the answer may only skip empty answers
+			for _, g := range guardsOf(s.Instr) {
+				if bo, isBin := g.Cond.(*ssa.BinOp); isBin && core.IsConstString(bo.Y, "") && core.Key(bo.X) == core.Key(a) {
+					nonEmpty := bo.Op.String() == "!=" && g.Branch || bo.Op.String() == "==" && !g.Branch
+					c.Check(nonEmpty, n+" validates every non-empty answer", at(c, s.Instr), "", "the validation runs only for empty answers: an error message from haproxy counts as success")
+				}
+			}
+			// a rejected answer makes the command fail, an accepted one does not
+			okRej := false
+			for _, r := range core.Returns(fn) {
+				if core.IsConstBool(core.Results(r)[0], false) {
+					for _, g := range guardsOf(r) {
+						if g.Cond == ssa.Value(s.Instr.(*ssa.Call)) && !g.Branch {
+							okRej = true
+						}
+					}
+				}
+				if core.IsConstBool(core.Results(r)[0], true) {
+					for _, g := range guardsOf(r) {
+						if g.Cond == ssa.Value(s.Instr.(*ssa.Call)) && !g.Branch {
+							okRej = false
+						}
+					}
+				}
+			}
+			c.Check(okRej, n+" fails on a rejected answer", at(c, s.Instr), "", "no `return false` on the false branch of cmdResponseOK")
 			c.Check(ok, n+" validates every answer", at(c, s.Instr), "cmdResponseOK is applied to the loop element", "cmdResponseOK is applied to `"+core.Key(a)+"`: answers to the other commands of the batch (state, weight) are not validated, a refused command counts as applied")
 		}
 		if cnt == 0 {
 			c.Violated(n+" validates every answer", c.Pos(fn.Pos()), "no cmdResponseOK call")
 		}
+		// a transport error fails the command
+		okErr := false
+		for _, r := range core.Returns(fn) {
+			if core.IsConstBool(core.Results(r)[0], false) && guardedBy(r, has("execCommand(", "#1 != nil)"), true) {
+				okErr = true
+			}
+		}
+		c.Check(okErr, n+" fails on a socket error", c.Pos(fn.Pos()), "", "no `return false` under err != nil of execCommand")
 	}
 }
 
